@@ -9,6 +9,7 @@ import (
 
 	"github.com/blinklabs-io/gouroboros/kes"
 	"github.com/blinklabs-io/gouroboros/ledger"
+	"golang.org/x/crypto/blake2b"
 	"pgregory.net/rapid"
 
 	"verif/harness/internal/evi"
@@ -17,7 +18,23 @@ import (
 // kesPaths runs every public verification path that applies to the depth and
 // returns their verdicts by name.
 func kesPaths(depth int, pk []byte, t uint64, msg, sig []byte) map[string]bool {
+	a, b, c := clone(pk), clone(msg), clone(sig)
+	defer func() {
+		if (!bytes.Equal(a, pk) || !bytes.Equal(b, msg) || !bytes.Equal(c, sig)) && len(c39ArgWrites) < 8 {
+			c39ArgWrites = append(c39ArgWrites, fmt.Sprintf("a KES verification changed its arguments: public key intact=%v message intact=%v signature intact=%v",
+				bytes.Equal(a, pk), bytes.Equal(b, msg), bytes.Equal(c, sig)))
+		}
+	}()
 	out := map[string]bool{}
+	if depth == 0 {
+		// a depth-0 "sum" is the bare Ed25519 leaf; NewSumKesFromBytes has no depth 0
+		if len(sig) != kes.Sum0KesSigSize {
+			out["Sum0KesSig.Verify"] = false
+		} else {
+			out["Sum0KesSig.Verify"] = kes.Sum0KesSig(sig).Verify(t, pk, msg)
+		}
+		return out
+	}
 	s, err := kes.NewSumKesFromBytes(uint64(depth), sig)
 	if err != nil {
 		out["SumXKesSig.Verify"] = false
@@ -29,6 +46,9 @@ func kesPaths(depth int, pk []byte, t uint64, msg, sig []byte) map[string]bool {
 	}
 	return out
 }
+
+// c39ArgWrites collects observations of a callee writing into caller memory.
+var c39ArgWrites []string
 
 func anyAccept(m map[string]bool) (string, bool) {
 	names := make([]string, 0, len(m))
@@ -58,6 +78,12 @@ func firstReject(m map[string]bool) (string, bool) {
 	return "", false
 }
 
+// foreignPkOf returns a different, well-formed looking key derived from pk.
+func foreignPkOf(pk []byte) []byte {
+	h := blake2b.Sum256(pk)
+	return h[:]
+}
+
 func kesSigRegion(depth, bit int) string {
 	byteIdx := bit / 8
 	if byteIdx < 64 {
@@ -79,10 +105,30 @@ func TestC39(t *testing.T) {
 	keyFlipBudget := rec.Pick(32, 64)
 
 	rec.Check(func(rt *rapid.T) {
-		depth := rapid.SampledFrom([]int{1, 2, 3, 4, 5, 6, 6, 6}).Draw(rt, "depth")
+		depth := rapid.SampledFrom([]int{0, 1, 2, 3, 4, 5, 6, 6, 6, 6, 7}).Draw(rt, "depth")
 		seed := genSeed32(rt, "seed")
-		msg := rapid.SliceOfN(rapid.Byte(), 0, 300).Draw(rt, "msg")
+		seedOrig := clone(seed)
+		var msg []byte
+		switch rapid.IntRange(0, 19).Draw(rt, "msgKind") {
+		case 0:
+			msg = []byte{}
+			rec.Class("msg_empty")
+		case 1:
+			// larger than 64 KiB (header bodies are small, but nothing bounds the message)
+			n := rapid.SampledFrom([]int{65535, 65536, 65537, 70001}).Draw(rt, "bigLen")
+			fill := rapid.SliceOfN(rapid.Byte(), 64, 64).Draw(rt, "bigFill")
+			msg = bytes.Repeat(fill, n/64+1)[:n]
+			rec.Class("msg_over_64KiB")
+		default:
+			msg = rapid.SliceOfN(rapid.Byte(), 0, 300).Draw(rt, "msg")
+		}
 		exhaustiveFlips := depth <= 2 || rapid.IntRange(0, 7).Draw(rt, "exhFlips") == 0
+		flipBudget, keyFlipBudget := flipBudget, keyFlipBudget
+		if len(msg) > 60000 {
+			// hashing 64 KiB per verification: keep the neighbourhood small
+			exhaustiveFlips = false
+			flipBudget, keyFlipBudget = 8*(depth+1), 8
+		}
 		nPeriods := uint64(1) << uint(depth)
 		last := nPeriods - 1
 		check := map[uint64]bool{}
@@ -100,14 +146,25 @@ func TestC39(t *testing.T) {
 		}
 		rec.Class(fmt.Sprintf("depth_%d", depth))
 		cs := map[string]any{"depth": depth, "seed": evi.Hex(seed), "msg": evi.Hex(msg)}
+		msgOrig := clone(msg)
+		type heldSig struct {
+			t          uint64
+			msg        []byte
+			live, copy []byte
+		}
+		var held []heldSig
 
 		ref := refKesBuild(depth, seed, 0)
-		sk, pk0, err := kes.KeyGen(uint64(depth), seed)
+		sk, pkLive, err := kes.KeyGen(uint64(depth), seed)
 		if err != nil {
 			rec.Fail(rt, "keygen-error", fmt.Sprintf("KeyGen(%d) failed: %v", depth, err), cs)
 			return
 		}
-		pk0 = append([]byte(nil), pk0...)
+		if !bytes.Equal(seed, seedOrig) {
+			rec.Fail(rt, "callee-writes-caller-memory:KeyGen-seed", fmt.Sprintf("KeyGen changed the caller's seed buffer to %x", seed), cs)
+			return
+		}
+		pk0 := append([]byte(nil), pkLive...)
 		cs["pk"] = evi.Hex(pk0)
 		derivOK := bytes.Equal(pk0, ref.vk)
 		if derivOK {
@@ -185,6 +242,7 @@ func TestC39(t *testing.T) {
 					rec.Fail(rt, "ref-rejects-library-sig", fmt.Sprintf("independent sum-KES verifier rejects the library signature at period %d", tp), cs)
 					return
 				}
+				held = append(held, heldSig{tp, msg, sig, clone(sig)})
 				if derivOK {
 					rsig := ref.sign(tp, msg)
 					if bytes.Equal(rsig, sig) {
@@ -210,6 +268,33 @@ func TestC39(t *testing.T) {
 						rec.Fail(rt, "genuine-rejected:ledger.VerifyKesComponents", fmt.Sprintf("VerifyKesComponents(start=%d, slot=%d, spk=%d) = %v, %v for evolution %d", start, slot, spk, ok, err, tp), cs)
 						return
 					}
+					// extreme parameters: one slot per period; certificate start at the top of the range
+					if ok, err := ledger.VerifyKesComponents(msg, sig, pk0, 0, tp, 1); err != nil || !ok {
+						rec.Fail(rt, "genuine-rejected:ledger.VerifyKesComponents:spk1", fmt.Sprintf("VerifyKesComponents(start=0, slot=%d, spk=1) = %v, %v", tp, ok, err), cs)
+						return
+					}
+					top := uint64(math.MaxUint64) - last
+					if ok, err := ledger.VerifyKesComponents(msg, sig, pk0, top, top+tp, 1); err != nil || !ok {
+						rec.Fail(rt, "genuine-rejected:ledger.VerifyKesComponents:top-of-range", fmt.Sprintf("VerifyKesComponents(start=%d, slot=%d, spk=1) = %v, %v", top, top+tp, ok, err), cs)
+						return
+					}
+					for _, x := range [][3]uint64{{math.MaxUint64, 0, 1}, {0, math.MaxUint64, 1}, {1 << 63, 1<<63 + nPeriods + tp, 1}, {math.MaxUint64, math.MaxUint64, 1}, {tp + 1, tp, 1}, {0, tp, 0}} {
+						if x[0] == 0 && x[1] == tp && x[2] == 1 {
+							continue
+						}
+						if x[0] == math.MaxUint64 && x[1] == math.MaxUint64 && tp == 0 {
+							continue // evolution 0: genuinely valid
+						}
+						ok, _ := ledger.VerifyKesComponents(msg, sig, pk0, x[0], x[1], x[2])
+						rec.Eval()
+						if ok {
+							cs["start"], cs["slot"], cs["spk"] = x[0], x[1], x[2]
+							if !rec.Fail(rt, "accept:ledger.VerifyKesComponents:extreme", fmt.Sprintf("signature of evolution %d accepted for start=%d slot=%d spk=%d", tp, x[0], x[1], x[2]), cs) {
+								return
+							}
+						}
+					}
+					rec.EvalN(2)
 					// a slot in another KES period (also before the certificate start) must fail
 					for _, dp := range []int64{-1, 1, -int64(tp) - 1, int64(last-tp) + 1} {
 						np := int64(start+tp) + dp
@@ -249,8 +334,13 @@ func TestC39(t *testing.T) {
 					}
 				}
 				rec.ClassN("other_period_verifications", int(nPeriods-1))
-				// out-of-range periods
-				for _, o := range []uint64{nPeriods, nPeriods + tp, 2*nPeriods + tp, 1 << 32, 1<<63 + tp, math.MaxUint64, math.MaxUint64 - last + tp} {
+				// out-of-range periods (a bare depth-0 leaf has no period argument to check)
+				outOfRange := []uint64{nPeriods, nPeriods + tp, 2*nPeriods + tp, 1 << 31, 1<<32 - 1, 1 << 32, 1<<32 + tp, 1<<32 + nPeriods + tp,
+					1<<63 - 1, 1 << 63, 1<<63 + tp, 1<<63 + nPeriods + tp, math.MaxUint64, math.MaxUint64 - last + tp, math.MaxUint64 - nPeriods + 1 + tp}
+				if depth == 0 {
+					outOfRange = nil
+				}
+				for _, o := range outOfRange {
 					if !neg("accept:out-of-range-period", fmt.Sprintf("verified at out-of-range period %d", o), pk0, o, msg, sig) {
 						return
 					}
@@ -280,13 +370,31 @@ func TestC39(t *testing.T) {
 						return
 					}
 				}
-				for _, k2 := range [][]byte{pk0[:31], append(append([]byte(nil), pk0...), 0), {}} {
+				for _, k2 := range [][]byte{make([]byte, 32), bytes.Repeat([]byte{0xff}, 32)} {
+					if !neg("accept:constant-key", fmt.Sprintf("verified under the constant public key %x..", k2[:2]), k2, tp, msg, sig) {
+						return
+					}
+				}
+				for _, s2 := range [][]byte{make([]byte, len(sig)), bytes.Repeat([]byte{0xff}, len(sig))} {
+					if !neg("accept:constant-signature", fmt.Sprintf("the constant signature %x.. verified", s2[:2]), pk0, tp, msg, s2) {
+						return
+					}
+				}
+				wrongSize := [][]byte{pk0[:31], append(append([]byte(nil), pk0...), 0), {}}
+				if depth == 0 {
+					// the bare leaf hands the key straight to crypto/ed25519, which panics on a
+					// key that is not 32 bytes; depth 0 is outside the statement's range, so this
+					// is reported in findings/C39.md instead of being exercised here
+					wrongSize = nil
+					rec.Class("depth0_wrong_size_key_not_exercised")
+				}
+				for _, k2 := range wrongSize {
 					if !neg("accept:wrong-size-key", fmt.Sprintf("verified under a %d-byte public key", len(k2)), k2, tp, msg, sig) {
 						return
 					}
 				}
 				var keyBits []int
-				if depth <= 3 {
+				if depth <= 3 && len(msg) <= 60000 {
 					for b := 0; b < 256; b++ {
 						keyBits = append(keyBits, b)
 					}
@@ -332,6 +440,23 @@ func TestC39(t *testing.T) {
 					}
 				}
 
+				// one parsed signature object verified repeatedly, interleaved with other
+				// periods / messages: every verdict is a function of the arguments only
+				if depth >= 1 {
+					if so, err := kes.NewSumKesFromBytes(uint64(depth), sig); err == nil {
+						other := (tp + 1) % nPeriods
+						v1 := so.Verify(tp, pk0, msg)
+						w1 := so.Verify(other, pk0, msg)
+						w2 := so.Verify(tp, pk0, append(clone(msg), 0))
+						w3 := so.Verify(tp, foreignPkOf(pk0), msg)
+						v2 := so.Verify(tp, pk0, msg)
+						rec.EvalN(5)
+						if !v1 || !v2 || w1 && other != tp || w2 || w3 {
+							rec.Fail(rt, "history:repeated-verify-verdict-differs", fmt.Sprintf("one SumXKesSig verified repeatedly at period %d: genuine %v, other period %v, other message %v, other key %v, genuine again %v", tp, v1, w1, w2, w3, v2), cs)
+							return
+						}
+					}
+				}
 				// ---- the key evolved tp times cannot sign for any other period
 				var others []uint64
 				if depth <= 4 {
@@ -347,12 +472,17 @@ func TestC39(t *testing.T) {
 						others = append(others, tp+1)
 					}
 				}
+				// requests for periods that do not exist (also values whose difference to the
+				// key's period wraps or turns negative in a signed cast)
+				others = append(others, nPeriods, nPeriods+tp, 1<<32+tp, 1<<63, 1<<63+tp, math.MaxUint64, math.MaxUint64-tp, math.MaxUint64-nPeriods+1+tp)
 				for _, o := range others {
 					if o == tp {
 						continue
 					}
 					kind := "earlier"
-					if o > tp {
+					if o >= nPeriods {
+						kind = "nonexistent"
+					} else if o > tp {
 						kind = "later"
 					}
 					s2, err := kes.Sign(sk, o, msg)
@@ -389,6 +519,38 @@ func TestC39(t *testing.T) {
 					}
 				}
 
+				// ---- the refused requests above are history: the key still signs for its own
+				// period, for the same and for another message, and what was handed out
+				// earlier is untouched by it
+				sigAgain, err := kes.Sign(sk, tp, msg)
+				rec.Eval()
+				if err != nil || !refKesVerify(depth, pk0, tp, msg, sigAgain) {
+					rec.Fail(rt, "history:sign-after-refused-sign", fmt.Sprintf("after refused Sign requests the key at period %d no longer signs for its own period (err %v)", tp, err), cs)
+					return
+				}
+				if bytes.Equal(sigAgain, sig) {
+					rec.Class("resign_same_bytes")
+				}
+				msg2 := append(clone(msg), 0x5a)
+				msg2Orig := clone(msg2)
+				sig2, err := kes.Sign(sk, tp, msg2)
+				rec.Eval()
+				if err != nil || !refKesVerify(depth, pk0, tp, msg2, sig2) {
+					rec.Fail(rt, "history:sign-second-message", fmt.Sprintf("the key at period %d fails to sign a second message (err %v)", tp, err), cs)
+					return
+				}
+				held = append(held, heldSig{tp, msg2Orig, sig2, clone(sig2)})
+				if !bytes.Equal(msg2, msg2Orig) || !bytes.Equal(msg, msgOrig) {
+					rec.Fail(rt, "callee-writes-caller-memory:Sign-message", "Sign changed the caller's message buffer", cs)
+					return
+				}
+				for _, hs := range held {
+					if !bytes.Equal(hs.live, hs.copy) {
+						rec.Fail(rt, "history:earlier-signature-changed", fmt.Sprintf("the signature obtained at period %d was changed in the caller's hands by later Sign calls (now at period %d)", hs.t, tp), cs)
+						return
+					}
+				}
+
 				if tp >= 1 {
 					rec.NonTrivial(fmt.Sprintf("d%d|%x|%d|%x", depth, seed, tp, msg), map[string]any{
 						"depth": depth, "seed": evi.Hex(seed), "period": tp, "msg": evi.Hex(msg), "pk": evi.Hex(pk0), "sig": evi.Hex(sig),
@@ -406,7 +568,21 @@ func TestC39(t *testing.T) {
 					rec.Fail(rt, "update-past-last-period", fmt.Sprintf("Update at the last period %d returned a key (period %d) instead of an error", tp, nsk.Period), cs)
 					return
 				}
-				_ = old
+				// the refused Update is history: same key, same public key, still signs for the last period
+				if got := kes.PublicKey(old); !bytes.Equal(got, pk0) {
+					rec.Fail(rt, "history:pubkey-after-refused-update", fmt.Sprintf("PublicKey after a refused Update = %x, was %x", got, pk0), cs)
+					return
+				}
+				sl, err := kes.Sign(old, tp, msg)
+				rec.Eval()
+				if err != nil || !refKesVerify(depth, pk0, tp, msg, sl) {
+					rec.Fail(rt, "history:sign-after-refused-update", fmt.Sprintf("after Update was refused at the last period %d the key no longer signs for that period (err %v)", tp, err), cs)
+					return
+				}
+				if _, err := kes.Update(old); err == nil {
+					rec.Fail(rt, "update-past-last-period", "a second Update at the last period returned a key", cs)
+					return
+				}
 				break
 			}
 			old := sk
@@ -420,6 +596,39 @@ func TestC39(t *testing.T) {
 			} else {
 				rec.Class("predecessor_handle_erased")
 			}
+			// operations on the spent predecessor are history for the evolved key: they must
+			// not disturb it (the evolved key is checked at every later step)
+			if tp%3 == 0 {
+				_, _ = kes.Update(old)
+				_, _ = kes.Sign(old, tp+1, msg)
+			}
+		}
+		// ---- end of the key's life: everything handed out along the way is intact and valid
+		for _, hs := range held {
+			rec.Eval()
+			if !bytes.Equal(hs.live, hs.copy) {
+				rec.Fail(rt, "history:earlier-signature-changed", fmt.Sprintf("the signature obtained at period %d was changed in the caller's hands by later Sign/Update calls", hs.t), cs)
+				return
+			}
+			res := kesPaths(depth, pk0, hs.t, hs.msg, hs.live)
+			if name, bad := firstReject(res); bad {
+				rec.Fail(rt, "history:earlier-signature-invalid-after-evolution:"+name, fmt.Sprintf("the signature made at period %d no longer verifies there after the key was evolved to the end", hs.t), cs)
+				return
+			}
+		}
+		if !bytes.Equal(pkLive, pk0) {
+			rec.Fail(rt, "history:returned-pubkey-changed", fmt.Sprintf("the public key slice returned by KeyGen changed to %x while the key evolved", pkLive), cs)
+			return
+		}
+		if !bytes.Equal(msg, msgOrig) || !bytes.Equal(seed, seedOrig) {
+			rec.Fail(rt, "callee-writes-caller-memory", "the caller's message or seed buffer was changed", cs)
+			return
+		}
+		if len(c39ArgWrites) > 0 {
+			w := c39ArgWrites
+			c39ArgWrites = nil
+			rec.Fail(rt, "callee-writes-caller-memory:verify", w[0], cs)
+			return
 		}
 	})
 }
